@@ -666,6 +666,9 @@ func Run(tier string) int {
 	if !complete {
 		cv["caps_hit"] = []string{"deadline"}
 	}
+	for k, v := range runSettingsFaults(rep, tier) {
+		cv[k] = v
+	}
 	rep.Assumptions = []string{
 		"crash model: process kill - the file system holds exactly the completed system calls, the last write possibly cut short; no reordering, no loss of unsynced data (power loss is outside the property)",
 		"strace and the journal parser are trusted after the whole-journal conformance replay",
